@@ -179,7 +179,9 @@ def mc_run(module, consts, invariants=('NoViolation',), props=(), view='View', w
             f.write('  %s = %s\n' % (k, cfg_value(v)))
         for inv in invariants:
             f.write('INVARIANT %s\n' % inv)
-        if export:
+        if export == 'steps':
+            f.write('ACTION_CONSTRAINT ExportStep\n')
+        elif export:
             f.write('INVARIANT Export\n')
         for p_ in props:
             f.write('PROPERTY %s\n' % p_)
